@@ -114,3 +114,15 @@ def checksum_fn(data):
 
 def compare_digest(a, b):
     return bytes(a) == bytes(b)
+
+
+def perf_counter():
+    """time.perf_counter(): a non-decreasing clock (ghost.now)."""
+    d = nondet_real()
+    assume(d >= 0)
+    ghost.now = ghost.now + d
+    return ghost.now
+
+
+def strerror(code):
+    return "strerror"
